@@ -204,13 +204,13 @@ func c14(r *hx.Run) {
 	}
 	r.Set("exhaustive", true)
 	r.Set("exhaustive_scope", "ordered tuples of <=3 shapes over 2 hosts x 3 prefixes, 15 queries; name subsets exhaustive in thorough, for 1/4 of the triples in quick")
-	four := r.Pick(3000, 200000)
+	four := r.Pick(3000, 1000000)
 	for i := 0; i < four && !r.TooMany(); i++ {
 		run([]int{rnd.Intn(n), rnd.Intn(n), rnd.Intn(n), rnd.Intn(n)}, i%10 == 0)
 	}
 	r.Add("nontrivial_lookups", nontrivial)
 	// duplicate names and larger random universes
-	big := r.Pick(3000, 100000)
+	big := r.Pick(3000, 500000)
 	for i := 0; i < big && !r.TooMany(); i++ {
 		nl := 1 + rnd.Intn(8)
 		hosts := []string{"a.com", "b.com", "a.com.cn", "c.org", "A.com"}
@@ -273,7 +273,7 @@ func c14EndToEnd(r *hx.Run, rnd *rand.Rand, shapes []locSpec) {
 	w.Farm.SetScript(func(f *hx.Fetch) *hx.Reply {
 		return &hx.Reply{Status: 200, Body: hx.IdentBody(f, 10, "text")}
 	})
-	configs := r.Pick(40, 300)
+	configs := r.Pick(40, 1500)
 	q := 0
 	for i := 0; i < configs && !r.TooMany(); i++ {
 		nl := 1 + rnd.Intn(nOrig)
